@@ -5,11 +5,16 @@ C09 (order part)  Sorting happens under one total value order.
 gives doubles (`F64.ocmp`).  The sort itself (permutation / sortedness / tie-break) is in C09.lean;
 this file is only about the comparator.
 
-Domain `Value.inD fl` (a decidable predicate, AgProofs/Lemmas/ValueOrder.lean): either no floats
-at all (`fl = false`, integers unrestricted) or floats allowed and every integer within ±2^53
-(`fl = true`) — recursively through arrays and objects.  Arrays compare element by element
-(`cmpL`), objects by their key-sorted entries (`cmpKV`), as the code does since /repo 1d8641f /
-3043a84; orientation and reflexivity hold for ALL values, transitivity on the domain.
+Since the `cmp_int_float` repair of src/data.rs an `Int` is compared with a `Float` exactly (not
+after `i as f64`, which rounds beyond 2^53), so numbers are ordered by exact value and `cmp` is a
+total preorder on ALL values (`C09_cmp_total_preorder_full_holds`, `C09_cmp_total_preorder`):
+orientation, reflexivity AND transitivity, nested arrays and objects included.  Arrays compare
+element by element (`cmpL`), objects by their key-sorted entries (`cmpKV`), as the code does since
+/repo 1d8641f / 3043a84.
+
+The domain `Value.inD fl` (AgProofs/Lemmas/ValueOrder.lean: `fl = false` no floats, `fl = true`
+every value — it used to confine integers to ±2^53 when floats are present) survives only in the
+signatures of the `…_partial` statements, which are now corollaries of the full ones.
 -/
 import AgProofs.Lemmas.ValueOrder
 
@@ -62,18 +67,30 @@ theorem C09_cmp_refl (a : Value) : cmp a a = .eq := cmp_self a
 def C09_cmp_total_preorder_full : Prop :=
   ∀ a b c : Value, (cmp a b).isLE → (cmp b c).isLE → (cmp a c).isLE
 
-/-- … which is false of the code as it stands: beyond 2^53 two different integers are both
-`Equal` to the same double (`Int` vs `Float` is compared after `i as f64`), so `cmp` is not
-transitive: 2^53+1 ≤ 2^53 (as double) ≤ 2^53 but 2^53+1 > 2^53. -/
-theorem C09_cmp_total_preorder_not_full : ¬ C09_cmp_total_preorder_full := by
-  intro h
-  have := h (int 9007199254740993) (float (fin false two52 1)) (int 9007199254740992)
-  revert this
+/-- … which holds since the `cmp_int_float` repair: every number is compared as its exact value
+in `OrderedFloat`'s order (`cmp_num`), and `ocmp` is transitive on all data -/
+theorem C09_cmp_total_preorder_full_holds : C09_cmp_total_preorder_full :=
+  fun _ _ _ h1 h2 => cmp_isLE_trans_all h1 h2
+
+/-- `cmp` is an oriented, transitive comparison = a total preorder on ALL values -/
+theorem C09_cmp_total_preorder : Std.TransCmp Value.cmp where
+  eq_swap := by
+    intro a b
+    rw [← cmp_swap b a]
+  isLE_trans := cmp_isLE_trans_all
+
+/-- regression (the witness of the former defect): before the repair 2^53+1 ≤ 2^53 (as double)
+≤ 2^53 held although 2^53+1 > 2^53, because `Int` vs `Float` was compared after `i as f64`; now
+2^53+1 is greater than the double 2^53 -/
+example : cmp (int 9007199254740993) (float (fin false two52 1)) = .gt ∧
+    cmp (float (fin false two52 1)) (int 9007199254740992) = .eq ∧
+    cmp (int 9007199254740993) (int 9007199254740992) = .gt := by
   simp only [cmp]
   decide
 
 /-- On the domain `inD fl` — nested arrays and objects included — `cmp` is an oriented,
-transitive comparison = a total preorder (`Std.TransCmp` on the subtype). -/
+transitive comparison = a total preorder (`Std.TransCmp` on the subtype).  (`inD true` is every
+value: this is `C09_cmp_total_preorder` restricted.) -/
 theorem C09_cmp_total_preorder_partial (fl : Bool) :
     Std.TransCmp (fun (a b : {v : Value // inD fl v = true}) => cmp a.1 b.1) where
   eq_swap := by
@@ -97,14 +114,24 @@ theorem C09_cmp_laws (fl : Bool) {a b c : Value} (ha : inD fl a) (hb : inD fl b)
   · rw [← hsw]; cases cmp a b <;> simp
   · rw [← hsw]; cases cmp a b <;> simp
 
-/-- non-vacuity: the domain contains every kind of scalar, mixed ints and floats, nested arrays
-and objects -/
-example : inD true .none ∧ inD true (.bool true) ∧ inD true (.int (-9007199254740992)) ∧
+/-- the same without a domain: ALL values -/
+theorem C09_cmp_laws_all (a b c : Value) :
+    cmp a a = .eq ∧
+    (cmp a b = .gt ↔ cmp b a = .lt) ∧
+    (cmp a b = .lt ∨ cmp a b = .eq ∨ cmp b a = .lt) ∧
+    ((cmp a b).isLE → (cmp b c).isLE → (cmp a c).isLE) ∧
+    (cmp a b = .lt → cmp b c = .lt → cmp a c = .lt) ∧
+    (cmp a b = .eq → cmp b c = .eq → cmp a c = .eq) :=
+  C09_cmp_laws true (inD_true a) (inD_true b) (inD_true c)
+
+/-- non-vacuity: the domain contains every kind of scalar, mixed ints and floats (integers of any
+size), nested arrays and objects -/
+example : inD true .none ∧ inD true (.bool true) ∧ inD true (.int (-9223372036854775808)) ∧
     inD true (.float (fin false two52 (-53))) ∧ inD true (.float nan) ∧ inD true (.str "a") ∧
     inD true (.date 0) ∧ inD true (.dur 1) ∧ inD true (.arr [.int 1, .arr [.float nan]]) ∧
     inD true (.obj [("k", .arr [.int 2]), ("l", .obj [])]) ∧
     inD false (.int 9223372036854775807) := by
-  simp [inD, inDL, inDKV, two53]
+  simp [inD, inDL, inDKV]
 
 /-- `rank` order: None < Bool < number < Str < DateTime < Duration < Array < Obj (all values) -/
 theorem C09_cmp_rank (a b : Value) (h : a.rank < b.rank) : cmp a b = .lt ∧ cmp b a = .gt :=
@@ -119,6 +146,28 @@ example : (Value.none).rank < (Value.bool false).rank ∧ (Value.bool true).rank
 theorem C09_cmp_numbers_by_value {fl : Bool} {a b : Value} {x y : Dyadic}
     (ha : inD fl a) (hb : inD fl b) (hx : num a = some x) (hy : num b = some y) :
     cmp a b = dcmp x y := cmp_eq_dcmp ha hb hx hy
+
+/-- … all of them: integers of any size against any finite double -/
+theorem C09_cmp_numbers_by_value_all {a b : Value} {x y : Dyadic}
+    (hx : num a = some x) (hy : num b = some y) : cmp a b = dcmp x y := cmp_eq_dcmp_all hx hy
+
+/-- an `Int` against a `Float`, spelled out: NaN and +inf above, −inf below, a finite double by
+exact value -/
+theorem C09_cmp_int_float (i : Int) :
+    cmp (int i) (float nan) = .lt ∧ cmp (int i) (float (inf false)) = .lt ∧
+    cmp (int i) (float (inf true)) = .gt ∧
+    (∀ f y, val? f = some y → cmp (int i) (float f) = dcmp (i : Dyadic) y) ∧
+    (∀ f, cmp (float f) (int i) = (cmp (int i) (float f)).swap) := by
+  refine ⟨by simp [cmp, cmpIntFloat], by simp [cmp, cmpIntFloat], by simp [cmp, cmpIntFloat],
+    fun f y hf => ?_, fun f => by simp [cmp]⟩
+  simp only [cmp]; exact cmpIntFloat_eq_dcmp i hf
+
+/-- i64::MAX is below the double 2^63 (= `i64::MAX as f64`), 2^53+1 above the double 2^53 -/
+example : cmp (int 9223372036854775807) (float (fin false two52 11)) = .lt ∧
+    cmp (float (fin false two52 11)) (int 9223372036854775807) = .gt ∧
+    cmp (int 9007199254740993) (float (fin false two52 1)) = .gt := by
+  simp only [cmp]
+  decide
 
 example : cmp (int 1) (float (fin false two52 (-53))) = .gt := by
   rw [C09_cmp_numbers_by_value (fl := true) (x := 1) (y := Dyadic.ofIntWithPrec 1 1)
